@@ -240,6 +240,29 @@ harnesses! { REG, "C20", "c20";
         ob!("R1.laba_round_trip", match back { Some(c) => f32eq(c.l, l) && f32eq(c.a, a) && f32eq(c.b, b) && f32eq(c.alpha, al), None => false });
     }
 
+    { id: "round_trip.alpha_first_in_map", tier: quick, label: "complete",
+      func: "impl Deserialize for Alpha -> serde::AlphaDeserializer::deserialize_struct -> MapWrapper::{next_key_seed, next_value_seed}, AlphaFieldVisitor [serde/alpha_deserializer.rs]",
+      desc: "R1 for all u8 components: a self-describing format may hand the keys back in ANY order (serde_json::Value sorts them: alpha comes first for Rgb); with `alpha` as the FIRST key the colour's own fields are still all delivered and the colour is recovered" }
+    #[kani::unwind(12)]
+    fn rt_alpha_first(g) {
+        let (r, gr, b, a) = (g.u8(), g.u8(), g.u8(), g.u8());
+        cov!(g, r != a);
+        let first = [Tok::Struct("Rgb", 4), Tok::Field("alpha"), Tok::U8(a), Tok::Field("red"), Tok::U8(r), Tok::Field("green"), Tok::U8(gr), Tok::Field("blue"), Tok::U8(b), Tok::StructEnd];
+        let back: Option<Srgba<u8>> = de(&first);
+        ob!("R1.alpha_first", match back { Some(c) => c.red == r && c.green == gr && c.blue == b && c.alpha == a, None => false });
+    }
+    { id: "round_trip.alpha_in_the_middle_of_map", tier: quick, label: "complete",
+      func: "impl Deserialize for Alpha<Lab> -> serde::AlphaDeserializer::deserialize_struct -> MapWrapper::{next_key_seed, next_value_seed}",
+      desc: "R1 for all non-NaN f32 components: Laba with sorted keys (a, alpha, b, l): `alpha` in the MIDDLE of the map, the colour's fields out of declaration order" }
+    #[kani::unwind(12)]
+    fn rt_alpha_middle(g) {
+        let (l, la, lb, al) = (nn32(g), nn32(g), nn32(g), nn32(g));
+        cov!(g, la != al);
+        let sorted = [Tok::Struct("Lab", 4), Tok::Field("a"), Tok::F32(la.to_bits()), Tok::Field("alpha"), Tok::F32(al.to_bits()), Tok::Field("b"), Tok::F32(lb.to_bits()), Tok::Field("l"), Tok::F32(l.to_bits()), Tok::StructEnd];
+        let back: Option<Laba<palette::white_point::D65, f32>> = de(&sorted);
+        ob!("R1.laba_sorted_keys", match back { Some(c) => f32eq(c.l, l) && f32eq(c.a, la) && f32eq(c.b, lb) && f32eq(c.alpha, al), None => false });
+    }
+
     { id: "optional_alpha.missing_in_sequence", tier: quick, label: "complete",
       func: "serde::deserialize_with_optional_alpha, AlphaDeserializer seq path [serde.rs, serde/alpha_deserializer.rs]",
       desc: "R4 for all u8 components: a transparent type read from SEQUENCE-shaped data that ends after the colour's own values gets max_intensity; with a trailing element it is the alpha" }
